@@ -33,15 +33,25 @@ jobs; every argument object is rebuilt from the job descriptor for every run.  M
    Node.clear_child_nodes called from a birth-death simulator's frame = the restart-after-total-extinction branch
    was executed; counted so that the evidence shows the specification was judged on such runs.
 
+Keys: spec|<simulator>|<clause>[|detail] ; rng-tripwire|<simulator>|<generator.method>|<innermost library function>
+(first stray call of the monitored call; "nested-simulator-called-without-the-rng" when a hooked simulator was seen being
+called without a generator inside a call that was given one) ; determinism|<simulator>|<what differs>|<in-process |
+cross-process | default-generator>, where <what differs> is decided on the two encodings: gene-taxa-permuted-within-
+species (equal after relabelling gene leaves by species) / child-order-only / leaf-labels-permuted / lengths-only /
+topology.  When the tripwire fired for a job its determinism comparisons are skipped (same root cause, one key).
+The witness case of every violation is the single job ({"kind": "jobs", "jobs": [job]}), re-runnable with --replay.
+
 Soundness limits: only the tip-count stopping rule (num_extant_tips), extinct tips pruned, no gsa_ntax, no ``tree=``
 continuation, birth > death >= 0 (rate drift sd only tiny, and death drift only when death >= 0.3*birth); population
 sizes > 0; every species that reaches contained_coalescent_tree has >= 1 gene; species trees carry lengths on all
-non-root edges.  Gene trees are only judged on the join-time clause (their leaf taxa being *copies* outside the gene
-tree's namespace after constrained_kingman_tree(decorate_original_tree=False) is recorded, not judged; so is a
-mismatch between the number of gene leaves and the number of genes).  A differing *namespace* after two runs is
-not judged, only the returned tree.  Re-using one species-tree object across calls is explored (note), not judged.
-coalesce_nodes called directly is judged for tripwire + determinism only.  A child interpreter that dies or times
-out makes the case inconclusive, never a verdict."""
+non-root edges.  A tree whose lengths are all zero satisfies "equidistant" (the statement asks no more).  Gene trees are
+only judged on the join-time clause (their leaf taxa being *copies* outside the gene tree's namespace after
+constrained_kingman_tree(decorate_original_tree=False) is recorded, not judged; so are a mismatch between the number of
+gene leaves and the number of genes, and extant leaves lacking the ``is_extinct`` attribute).  A differing *namespace*
+after two runs is not judged, only the returned tree.  Re-using one species-tree object across calls is explored
+(note), not judged.  coalesce_nodes called directly is judged for tripwire + determinism only.  rand_trees is judged
+with birth_death_tree as model function (mapping without rng / mapping with rng / callable keyword generator).  A child
+interpreter that dies or times out makes the case inconclusive, never a verdict."""
 import json
 import os
 import random
@@ -101,7 +111,7 @@ def cases(tier, seed):
     if tier == "quick":
         nb, per = 176, 24
     else:
-        nb, per = 2000, 36
+        nb, per = 2400, 36
     for i in range(nb):
         yield {"kind": "batch", "i": i, "n": per, "seed": seed, "tier": tier}   # tier inside: --replay re-creates the same jobs
 
